@@ -110,6 +110,10 @@ def gen_cases(rng, n, tier):
     maxl = 3 if tier == 'quick' else 5
     out = []
     while len(out) < n:
+        if rng.random() < 0.04:
+            # object history: the same Num objects observed and mutated in place again and again (see numlib.num_history)
+            out.append(N.num_history(rng, maxl=maxl))
+            continue
         if rng.random() < 0.02:
             # very long operands (32..100 limbs, runs of equal limbs) over small denominators: one product or sum, judged by
             # `==` against the expected value built directly (printing numbers of this size would dominate the run)
@@ -182,6 +186,6 @@ def main(tier, seed):
     }
     assumptions = ['fractions.Fraction with None as absorbing NaN is the oracle', 'NaN == NaN is not judged',
                    'results capped at %d bits (the real gcd/division is cubic)' % BITCAP, 'floor judged only for non-negative values (as the property states)']
-    minimum = {'evaluations': (n, 5000), 'very long operands': (hist.get('very_long_operands', 0), 100), 'negative fractions': (hist.get('result:neg_frac', 0), 300),
+    minimum = {'evaluations': (n, 5000), 'object histories': (hist.get('object_history', 0), 300), 'very long operands': (hist.get('very_long_operands', 0), 100), 'negative fractions': (hist.get('result:neg_frac', 0), 300),
                'nan results': (hist.get('result:nan', 0), 300), 'eq_other_construction': (hist.get('eq_other_construction', 0), 500)}
     return rep.finish(cov, assumptions, t0, minimum)
